@@ -1230,6 +1230,10 @@ def shared_typedef(chk):
                 exp['o%d' % k] = cnt[inits[ii]] * esz
             decls.append('unsigned long sz[] = {%s};' % ', '.join('sizeof o%d' % k for k in range(3)))
             decls.append('void f(void) { A%d l0 = %s; A%d l1 = %s; static unsigned long lsz[] = {sizeof l0, sizeof l1}; }' % (ei, inits[order[0]], ei, inits[order[1]]))
+            # compound literals written with the typedef: each literal is completed by its own initialiser too
+            cl = [('(A%d)%s' % (ei, inits[ii] if inits[ii].startswith('{') else '{%s}' % inits[ii])) for ii in order]
+            decls.append('unsigned long csz[] = {%s};' % ', '.join('sizeof(%s)' % c for c in cl))
+            decls.append('void g(void) { static unsigned long lcsz[] = {%s}; }' % ', '.join('sizeof(%s)' % c for c in reversed(cl)))
             src = '\n'.join(decls) + '\n'
             r = srv.compile(src, cpu_s=10)
             n += 1
@@ -1242,6 +1246,13 @@ def shared_typedef(chk):
             lk = [k for k in objs if k.startswith('.Llsz')]
             lsz = struct.unpack('<2Q', objs[lk[0]].image) if lk else None
             want_l = (cnt[inits[order[0]]] * esz, cnt[inits[order[1]]] * esz)
+            want_c = tuple(cnt[inits[ii]] * esz for ii in order)
+            csz = struct.unpack('<3Q', objs['csz'].image) if 'csz' in objs else None
+            ck = [k for k in objs if k.startswith('.Llcsz')]
+            lcsz = struct.unpack('<3Q', objs[ck[0]].image) if ck else None
+            if csz != want_c or lcsz != tuple(reversed(want_c)):
+                chk.violation('typedef-array/compound-literal-completes-the-shared-typedef', 'typedef %s A[]; compound literals (A)%s: sizeof at file scope %r, in a function (reverse order) %r; expected %r' % (
+                    et, [inits[i] for i in order], csz, lcsz, want_c), files={'input.c': src.encode()}, cmd='$CPROC_QBE input.c | grep csz')
             if got != exp or szs != tuple(exp['o%d' % k] for k in range(3)) or lsz != want_l:
                 chk.violation('typedef-array/initialiser-completes-the-shared-typedef', 'typedef %s A[]; objects initialised with %s: image sizes %r, sizeof %r, automatic sizeof %r; expected %r and %r' % (
                     et, [inits[i] for i in order], got, szs, lsz, exp, want_l), files={'input.c': src.encode()}, cmd='$CPROC_QBE input.c | grep "^export data\|^data"')
